@@ -399,8 +399,12 @@ func run(a []string) int {
 	}
 	if replay == "" {
 		b, _ := json.MarshalIndent(ev, "", " ")
-		_ = os.MkdirAll(filepath.Join(verifDir, "evidence"), 0o755)
-		if err := os.WriteFile(filepath.Join(verifDir, "evidence", id+".json"), b, 0o644); err != nil {
+		evDir := filepath.Join(verifDir, "evidence")
+		if d := os.Getenv("VERIF_EVIDENCE_DIR"); d != "" { // tools/coverage.sh: measurement runs leave evidence/ alone
+			evDir = d
+		}
+		_ = os.MkdirAll(evDir, 0o755)
+		if err := os.WriteFile(filepath.Join(evDir, id+".json"), b, 0o644); err != nil {
 			fmt.Fprintln(os.Stderr, "cannot write evidence:", err)
 			return 3
 		}
